@@ -131,6 +131,7 @@ namespace wc
     int assign_level = 0;
     int rank_elems = 1;
     int adapt = 0;
+    int weight_mode = 0;       // element weights handed to the partitioners through _compute_weights (0 = none)
   };
 
   // the real PartiDomainControl with one seam: an explicit, seeded cell->rank assignment injected through the
@@ -146,6 +147,8 @@ namespace wc
     int explicit_level = 0;
     unsigned long long explicit_seed = 0;
     int explicit_mode = 0;
+    int weight_mode = 0;              // 0: none (base class), 1: random 1..4, 2: one heavy cell, 3: some cells of weight zero
+    unsigned long long weight_seed = 0;
 
     explicit SimPDC(const Dist::Comm& comm, bool multi) : BaseClass(comm, multi) {}
 
@@ -163,6 +166,19 @@ namespace wc
     }
 
   protected:
+    // the documented extension point for element weights (the base class returns none)
+    virtual std::vector<typename BaseClass::WeightType> _compute_weights(Ancestor& ancestor, const MeshNodeType& base_mesh_node) override
+    {
+      if(weight_mode == 0) return BaseClass::_compute_weights(ancestor, base_mesh_node);
+      const Index ne = base_mesh_node.get_mesh()->get_num_elements();
+      std::vector<typename BaseClass::WeightType> w(ne, typename BaseClass::WeightType(1));
+      unsigned long long s = weight_seed * 6364136223846793005ull + 1442695040888963407ull;
+      auto rnd = [&s](Index m) { s = s * 6364136223846793005ull + 1442695040888963407ull; return Index((s >> 33) % m); };
+      if(weight_mode == 1) for(Index i = 0; i < ne; ++i) w[i] = typename BaseClass::WeightType(1 + rnd(4));
+      else if(weight_mode == 2) w[rnd(ne)] = typename BaseClass::WeightType(100);
+      else for(Index i = 0; i < ne; ++i) if(rnd(3) == 0) w[i] = typename BaseClass::WeightType(0);
+      return w;
+    }
 #ifdef FEAT_HAVE_MPI
     virtual bool _check_parti(Ancestor& ancestor, const MeshNodeType& mesh_node, bool is_base_layer) override
     {
@@ -243,6 +259,7 @@ namespace wc
     c.assign_level = int(sim::cfg_int("assign_level", 0, is3d ? 1 : 2));
     c.adapt = int(sim::cfg_int("assign_mode", 0, 2));
     c.rank_elems = int(sim::cfg_weighted("rank_elems", {3, 1, 1})) == 0 ? 1 : int(sim::cfg_int("rank_elems_v", 2, 4));
+    c.weight_mode = int(sim::cfg_weighted("elem_weights", {2, 1, 1, 1}));
     return c;
   }
 
